@@ -977,3 +977,8 @@ def run(db, ctx):
     ctx.rules_text['R7.7'] = ctx.rules_text.pop('R1.5', 'dispatcher arms')
     if 'R1.5' in ctx.floors:
         ctx.floors['R7.7'] = ctx.floors.pop('R1.5')
+    # a maximum over the whole score matrix equals the best *valid* position only because the cells past the last position score -inf, which they
+    # do because the wildcard column of every scoring matrix — the reverse complement's included — is carried over (seed C07-8 skipped it there)
+    from . import C10
+    common.shared_rule(db, ctx, C10.r102_103, 'R7.9', 'reverse_complement copies every column of symbols(), the wildcard included (shared with R10.2 / R10.3): the padding '
+                       'cells of a reverse-strand score matrix keep -inf', ['R10.2', 'R10.3'])
